@@ -13,6 +13,8 @@ import (
 	"encoding/json"
 	"math/big"
 	"os"
+	"runtime/debug"
+	"strings"
 	"sync/atomic"
 	"testing"
 	"unsafe"
@@ -314,6 +316,7 @@ func (a *api) callShared(k, u []byte, layout int) (out []byte, ok bool, p *lib.P
 		gout.Buf[i] = 0xA5
 	}
 	in := append(lib.Clone(k), u...)
+	debug.SetPanicOnFault(true) // per goroutine: guard-page faults become panics
 	p = lib.Try(a.c.name+".Shared", in, func() { ok = a.shared(gout.Ptr(), gk.Ptr(), gu.Ptr()) })
 	out = lib.Clone(gout.Buf)
 	if p == nil {
@@ -335,6 +338,7 @@ func (a *api) callKeyGen(k []byte, layout int) (pub []byte, p *lib.Panic) {
 	for i := range gout.Buf {
 		gout.Buf[i] = 0xA5
 	}
+	debug.SetPanicOnFault(true)
 	p = lib.Try(a.c.name+".KeyGen", k, func() { a.keygen(gout.Ptr(), gk.Ptr()) })
 	pub = lib.Clone(gout.Buf)
 	if p == nil {
@@ -750,7 +754,7 @@ func onePair(a *api, ks, us named, idx int) {
 
 	got, ok, p := a.callShared(k, u, layout)
 	if p != nil {
-		vio(c, "panic-"+p.Class(), "Shared", "", "k", k, "u", u, "panic", p.Value, "frame", p.TopFrame(), "layout", layout&7)
+		vio(c, "panic-"+panicClass(p), "Shared", "", "k", k, "u", u, "panic", p.Value, "frame", p.TopFrame(), "layout", layout&7)
 		return
 	}
 	if !lib.Eq(got, want) {
@@ -791,7 +795,7 @@ func onePair(a *api, ks, us named, idx int) {
 	if idx%4 == 0 || idx < 4096 {
 		pub, p := a.callKeyGen(k, layout>>3)
 		if p != nil {
-			vio(c, "panic-"+p.Class(), "KeyGen", "", "k", k, "panic", p.Value, "frame", p.TopFrame())
+			vio(c, "panic-"+panicClass(p), "KeyGen", "", "k", k, "panic", p.Value, "frame", p.TopFrame())
 		} else {
 			lib.Count(c.name + ":keygen-checked")
 			wantPub := c.X(k, c.base)
@@ -800,7 +804,7 @@ func onePair(a *api, ks, us named, idx int) {
 			}
 			sb, okb, pb := a.callShared(k, c.base, layout>>4)
 			if pb != nil {
-				vio(c, "panic-"+pb.Class(), "Shared", "", "k", k, "u", c.base, "panic", pb.Value)
+				vio(c, "panic-"+panicClass(pb), "Shared", "", "k", k, "u", c.base, "panic", pb.Value)
 			} else {
 				if !lib.Eq(sb, pub) {
 					vio(c, "keygen-differs-from-shared-basepoint", "KeyGen", "", "k", k, "keygen", pub, "shared", sb)
@@ -826,7 +830,7 @@ func onePair(a *api, ks, us named, idx int) {
 		g2, ok2, p2 := a.callShared(k2, u, layout>>5)
 		lib.Count(c.name + ":clamp-relation-checked")
 		if p2 != nil {
-			vio(c, "panic-"+p2.Class(), "Shared", "", "k", k2, "u", u, "panic", p2.Value)
+			vio(c, "panic-"+panicClass(p2), "Shared", "", "k", k2, "u", u, "panic", p2.Value)
 		} else if !lib.Eq(g2, got) || ok2 != ok {
 			vio(c, "clamped-bits-change-result", "Shared", "", "k1", k, "k2", k2, "u", u, "out1", got, "out2", g2, "ok1", ok, "ok2", ok2)
 		}
@@ -838,7 +842,7 @@ func onePair(a *api, ks, us named, idx int) {
 		g2, ok2, p2 := a.callShared(k, u2, layout>>5)
 		lib.Count("x25519:bit255-relation-checked")
 		if p2 != nil {
-			vio(c, "panic-"+p2.Class(), "Shared", "", "k", k, "u", u2, "panic", p2.Value)
+			vio(c, "panic-"+panicClass(p2), "Shared", "", "k", k, "u", u2, "panic", p2.Value)
 		} else if !lib.Eq(g2, got) || ok2 != ok {
 			vio(c, "bit255-changes-result", "Shared", "", "k", k, "u1", u, "u2", u2, "out1", got, "out2", g2, "ok1", ok, "ok2", ok2)
 		}
@@ -906,4 +910,13 @@ func TestVerifAgree(t *testing.T) {
 			}
 		})
 	}
+}
+
+// panicClass: a fault on a guard page (operand over-read / over-write) surfaces as
+// Go's "invalid memory address" panic once SetPanicOnFault is on.
+func panicClass(p *lib.Panic) string {
+	if strings.Contains(p.Value, "invalid memory address") || strings.Contains(p.Value, "fault address") {
+		return "guard-page-fault"
+	}
+	return p.Class()
 }
